@@ -487,12 +487,15 @@ Definition parse_conf (s : bytes) : sconf :=
   match split_on 59 s with
   | [pw; emb; mime; file; norp; limit] =>
     mkSConf (opt_hex pw) (match opt_hex emb with Some p => Some (p, opt_hex mime) | None => None end)
-            (opt_hex file) (beq norp [49]) (read_N limit) false None
+            (opt_hex file) (beq norp [49]) (read_N limit) [] false None
   | [pw; emb; mime; file; norp; limit; fileack; rperr] =>
     mkSConf (opt_hex pw) (match opt_hex emb with Some p => Some (p, opt_hex mime) | None => None end)
-            (opt_hex file) (beq norp [49]) (read_N limit) (beq fileack [49])
+            (opt_hex file) (beq norp [49])
+            (match split_on 44 limit with l :: _ => read_N l | [] => 8192 end)
+            (match split_on 44 limit with _ :: _ :: _ => map read_N (split_on 44 limit) | _ => [] end)
+            (beq fileack [49])
             (if beq rperr [126] then None else Some (read_N rperr))
-  | _ => mkSConf None None None false 8192 false None
+  | _ => mkSConf None None None false 8192 [] false None
   end.
 
 (* loopm <connect-spec> <conf> <label>...  ->  <ops> # <segments> *)
